@@ -1252,6 +1252,32 @@ def simplify_locals(fi: FunctionInfo, body: list[ast.stmt], log: list[str]) -> b
                             log.append(f"{fi.short}: bound method `{name}` called through its receiver again")
                             changed = again = True
                             break
+                # (i) a copy of a parameter that is never re-bound (`first = exc_type`, `plain = cast(T, function)`): read as the
+                #     parameter - also inside the function's closures when none of them binds either name
+                src_ = s1.value
+                if isinstance(src_, ast.Call) and isinstance(src_.func, ast.Name) and src_.func.id == "cast" and len(src_.args) == 2 and not src_.keywords and _is_type_expression(src_.args[0]):
+                    src_ = src_.args[1]
+                if not multi and isinstance(src_, ast.Name) and src_.id in params and loads and not _name_uses(body, src_.id)[1]:
+                    nested_binders = [nd for st in body for nd in ast.walk(st) if isinstance(nd, (ast.FunctionDef, ast.AsyncFunctionDef, ast.Lambda))]
+                    clash = any(a.arg in (name, src_.id) for nd in nested_binders for a in ast.walk(nd.args) if isinstance(a, ast.arg)) or any(isinstance(x, ast.Name) and x.id in (name, src_.id) and not isinstance(x.ctx, ast.Load) for nd in nested_binders for x in ast.walk(nd))
+                    if not clash:
+                        pname_ = src_.id
+
+                        class _Copy(ast.NodeTransformer):
+                            def visit_Name(self, n: ast.Name):  # noqa: N802
+                                if n.id == name and isinstance(n.ctx, ast.Load):
+                                    return ast.copy_location(ast.Name(id=pname_, ctx=ast.Load()), n)
+                                return n
+
+                        for bi, st in enumerate(body):
+                            body[bi] = _Copy().visit(st)
+                        for blk in blocks(body):
+                            for bj, st in enumerate(blk):
+                                if st is s1:
+                                    blk[bj] = ast.copy_location(ast.Pass(), s1)
+                        log.append(f"{fi.short}: copy `{name}` of the parameter `{pname_}` read as the parameter")
+                        changed = again = True
+                        break
                 # closures reading the name keep it alive
                 if any(isinstance(n, (ast.FunctionDef, ast.AsyncFunctionDef, ast.Lambda)) and any(isinstance(x, ast.Name) and x.id == name for x in ast.walk(n)) for st in body for n in ast.walk(st)):
                     continue
@@ -1309,24 +1335,6 @@ def simplify_locals(fi: FunctionInfo, body: list[ast.stmt], log: list[str]) -> b
                         log.append(f"{fi.short}: spread the packed arguments `{name}` at the call(s) they are unpacked into")
                         changed = again = True
                         break
-                # (i) a copy of a parameter that is never re-bound (`first = exc_type`): read as the parameter
-                if not multi and isinstance(value, ast.Name) and value.id in params and loads and not _name_uses(body, value.id)[1]:
-
-                    class _Copy(ast.NodeTransformer):
-                        def visit_Name(self, n: ast.Name):  # noqa: N802
-                            if n.id == name and isinstance(n.ctx, ast.Load):
-                                return ast.copy_location(ast.Name(id=value.id, ctx=ast.Load()), n)
-                            return n
-
-                    for bi, st in enumerate(body):
-                        body[bi] = _Copy().visit(st)
-                    for blk in blocks(body):
-                        for bj, st in enumerate(blk):
-                            if st is s1:
-                                blk[bj] = ast.copy_location(ast.Pass(), s1)
-                    log.append(f"{fi.short}: copy `{name}` of the parameter `{value.id}` read as the parameter")
-                    changed = again = True
-                    break
                 # (a) bound-method alias
                 if not multi and isinstance(value, ast.Attribute) and loads:
                     call_funcs = [c.func for st in body for c in ast.walk(st) if isinstance(c, ast.Call)]
@@ -2610,4 +2618,56 @@ def trystar_as_try(prog: Program) -> list[str]:
         if count:
             ast.fix_missing_locations(mod.tree)
             log.append(f"{mod.name}: {count} `except*` statement(s) read as `except` whose clause receives (and re-raises) an exception group")
+    return log
+
+
+# ---------------------------------------------------------------------------------------------- bundled configuration
+def split_record_attributes(prog: Program) -> list[str]:
+    """`self._quota = _Quota(limit=limit, period=seconds)` - several configuration values kept as one private NamedTuple of the
+    module, bound once in __init__ and only ever read field by field (`self._quota.limit`) - is read as one attribute per field:
+    `self._limit = limit; self._period = seconds` and `self._limit` at the uses (when the class has no attribute of that name)."""
+    log: list[str] = []
+    for ci in list(prog.classes.values()):
+        init = ci.method("__init__")
+        if init is None:
+            continue
+        for attr, vals in list(ci.attr_val.items()):
+            if len(vals) != 1 or not attr.startswith("_") or not isinstance(vals[0], ast.Call) or not isinstance(vals[0].func, ast.Name):
+                continue
+            fields = _namedtuple_fields(ci.module.tree, vals[0].func.id)
+            elts = _tuple_elements(ci.module.tree, vals[0]) if fields else None
+            if not fields or elts is None:
+                continue
+            uses = [n for n in ast.walk(ci.node) if isinstance(n, ast.Attribute) and n.attr == attr and isinstance(n.value, ast.Name)]
+            parents = {id(c): p for p in ast.walk(ci.node) for c in ast.iter_child_nodes(p)}
+            stores = [u for u in uses if not isinstance(u.ctx, ast.Load)]
+            loads = [u for u in uses if isinstance(u.ctx, ast.Load)]
+            if len(stores) != 1 or not loads:
+                continue
+            if not all(isinstance(parents.get(id(u)), ast.Attribute) and parents[id(u)].attr in fields and isinstance(parents[id(u)].ctx, ast.Load) for u in loads):
+                continue
+            new_names = {f: f"_{f}" for f in fields}
+            if any(nn in ci.attr_val or nn in ci.attr_ann or nn in ci.methods for nn in new_names.values()):
+                continue
+            # the single store: an assignment statement in __init__
+            st = next((x for x in ast.walk(init.node) if isinstance(x, (ast.Assign, ast.AnnAssign)) and getattr(x, "value", None) is vals[0]), None)
+            blk_owner = parents.get(id(st)) if st is not None else None
+            if st is None or blk_owner is None:
+                continue
+            selfname = stores[0].value.id
+            repl = [ast.fix_missing_locations(ast.copy_location(ast.Assign(targets=[ast.Attribute(value=ast.Name(id=selfname, ctx=ast.Load()), attr=new_names[f], ctx=ast.Store())], value=e), st)) for f, e in zip(fields, elts)]
+            done = False
+            for fld in ("body", "orelse", "finalbody"):
+                blk = getattr(blk_owner, fld, None)
+                if isinstance(blk, list) and any(x is st for x in blk):
+                    k = next(j for j, x in enumerate(blk) if x is st)
+                    blk[k : k + 1] = repl
+                    done = True
+            if not done:
+                continue
+            for u in loads:
+                p_ = parents[id(u)]
+                p_.value = ast.copy_location(ast.Name(id=u.value.id, ctx=ast.Load()), u)  # self._quota.limit -> self._limit
+                p_.attr = new_names[p_.attr]
+            log.append(f"{ci.name}: record attribute `{attr}` read as one attribute per field {sorted(new_names.values())}")
     return log
